@@ -280,12 +280,13 @@ pub fn judge(c: &HbCase, o: &mut HbObs) {
 
 pub fn cases(ctx: Ctx) -> Vec<HbCase> {
     let quick = ctx.tier == crate::report::Tier::Quick;
-    let grid: &[u64] = if quick { &[1, 5, 30, 60] } else { &[1, 2, 5, 10, 30, 60, 300] };
+    let grid: &[u64] = &[1, 2, 5, 10, 30, 60, 300];
     let mut v = Vec::new();
     for &i in grid {
         for &t in grid {
             let (interval_ms, timeout_ms) = (i * 1000, t * 1000);
-            for (fi, frac) in [0.0f64, 0.1, 0.5, 0.99].iter().enumerate() {
+            let fracs: &[f64] = if quick { &[0.0, 0.1, 0.5, 0.99] } else { &[0.0, 0.01, 0.1, 0.25, 0.5, 0.75, 0.9, 0.99] };
+            for (fi, frac) in fracs.iter().enumerate() {
                 if quick && fi % 2 == 1 && i != t {
                     continue;
                 }
